@@ -4,14 +4,32 @@ usage: tools/seed_import.py            (reads /tmp/seed-out/results.jsonl, lates
 import glob, json, os, re, shutil, sys
 V = "/verif"
 res = {}
-for line in open("/tmp/seed-out/results.jsonl"):
-    try:
-        r = json.loads(line)
-    except ValueError:
+# round 1: results.jsonl; round 2: confirmations in results-r2.jsonl, final check runs in results-r2-final.jsonl;
+# runs of other properties' checks against a change in cross.jsonl (check ids are in the "== Cxx seed=" lines)
+for fn in ("results.jsonl", "results-r2.jsonl", "results-r2-final.jsonl"):
+    p = os.path.join("/tmp/seed-out", fn)
+    if not os.path.exists(p):
         continue
-    res[r["id"]] = r
+    for line in open(p):
+        try:
+            r = json.loads(line)
+        except ValueError:
+            continue
+        old = res.get(r["id"])
+        if old is not None and r.get("confirm", "skipped") == "skipped":
+            r["confirm"] = old["confirm"]
+        res[r["id"]] = r
+cross = {}
+p = "/tmp/seed-out/cross.jsonl"
+if os.path.exists(p):
+    for line in open(p):
+        try:
+            r = json.loads(line)
+        except ValueError:
+            continue
+        cross.setdefault(r["id"], []).append(r["check"])
 rows = []
-for d in sorted(glob.glob("/tmp/seed-out/C*C*/C*-?")):
+for d in sorted(glob.glob("/tmp/seed-out/C*C*/C*-?") + glob.glob("/tmp/seed-out/r2-*/C*-?*")):
     sid = os.path.basename(d)
     if sid not in res:
         continue
@@ -36,8 +54,14 @@ for d in sorted(glob.glob("/tmp/seed-out/C*C*/C*-?")):
     except Exception:
         pass
     chk = r["check"]
-    keys = sorted(set(re.findall(r"key: (.*)", chk)))
+    keys = sorted(set(k.strip() for k in re.findall(r"key: ([^;\n]*)", chk)))
     caught = "rc=1" in chk
+    other = []
+    for c in cross.get(sid, []):
+        for ln in c.splitlines():
+            m2 = re.match(r"== (C\d\d) seed=\S+ rc=1 ", ln)
+            if m2:
+                other.append({"check": m2.group(1), "violation_keys": sorted(set(re.findall(r"key: ([^;]*);", ln)))[:6]})
     prop = sid.split("-")[0]
     extra = {}
     ov = os.path.join(V, "seeded", "overrides.json")
@@ -53,6 +77,12 @@ for d in sorted(glob.glob("/tmp/seed-out/C*C*/C*-?")):
                       "then seed 1 if silent); git -C /repo checkout -- ." % prop,
                       "caught": caught, "violation_keys": keys[:12]},
     }
+    if sid[-1] not in "ab":
+        out["check_run"]["what_i_ran"] = ("tools/seed_par.sh: scratch worktree of /repo + patch.diff, private build/output directories "
+                                          "(VERIF_REPO/VERIF_BUILD/VERIF_OUT); ./check %s --tier quick with seeds 12648430, 1, 2 until one fires" % prop)
+        out["confirmation"]["what_i_ran"] = out["confirmation"]["what_i_ran"].replace("tools/seed_confirm.sh", "tools/seed_par.sh (same steps as tools/seed_confirm.sh)")
+    if other:
+        out["other_checks_that_catch_it"] = other
     out.update(extra)
     json.dump(out, open(os.path.join(dst, "meta.json"), "w"), indent=1)
     rows.append(out)
@@ -64,6 +94,6 @@ with open(os.path.join(V, "seeded", "INDEX.md"), "w") as f:
     for o in rows:
         f.write("| %s | %s | %s | %s | %s | %s |\n" % (
             o["id"], o["summary"].replace("|", "\\|")[:160], o["needs_to_manifest"].replace("|", "\\|")[:140],
-            "yes" if o["check_run"]["caught"] else "**no**",
+            "yes" if o["check_run"]["caught"] else ("**no** (caught by %s)" % ", ".join(o["caught_by"]) if o.get("caught_by") else "**no**"),
             "; ".join(k.replace("|", "\\|") for k in o["check_run"]["violation_keys"][:3]), o.get("note", "")))
 print("imported", len(rows))
